@@ -50,10 +50,6 @@ Definition sig_codec (c : case_codec) : Z :=
 
 (* encoding an arbitrary value: (Go type, wire identifier, value, packet) *)
 Definition case_enc := (string * Z * list Z * ores (list N))%type.
-Definition chk_enc (c : case_enc) : Z :=
-  let '(ty, wire, vs, r) := c in
-  let m := match encode ty wire vs with Some b => ROk b | None => RPan end in
-  code (ores_eqb bytes_eqb m r) true.
 Definition sig_enc (c : case_enc) : Z := let '(ty, wire, vs, r) := c in 1 + Z.land wire 3.
 
 (* C05: FP1220 / FP1632 directly.  (width 4|6, pattern bytes, Float64 bits, FromFloat64(Float64()) bytes) *)
@@ -90,6 +86,34 @@ Definition dy_close (a b : Z * Z) (k : Z) : bool :=
 Definition dy_in (a : Z * Z) (lo hi : Z) : bool :=
   let emin := Z.min (snd a) 0 in
   (lo * 2 ^ (- emin) <=? dy_scale a emin) && (dy_scale a emin <? hi * 2 ^ (- emin)).
+
+(* the property for the fixed-point precisions of real-valued outputs: every in-range component, encoded, decodes (by
+   the reference reading of the field: two's-complement integer / 2^k, fraction word first for 16.32) to a value
+   less than one unit of resolution away *)
+Definition enc_fixed_ok (wire : Z) (vs : list Z) (b : list N) : bool :=
+  let p := Z.land wire 3 in
+  match lookup_shape (Z.land wire 0xf8f0) spec_layouts with
+  | Some (Reals n) =>
+      if (p =? 1) || (p =? 2) then
+        let w := if p =? 1 then 4%nat else 6%nat in
+        let k := if p =? 1 then 20 else 32 in
+        let lim := if p =? 1 then 2048 else 32768 in
+        let data := skipn 3 b in
+        (length vs =? n)%nat && (length data =? w * n)%nat &&
+        forallb (fun i =>
+          let f := firstn w (skipn (w * i) data) in
+          let int := if p =? 1 then sint 32 (Z.of_N (be f)) else fp1632_int f in
+          match dyadic (f64_of_bits (nth i vs 0)) with
+          | Some a => if dy_in a (- lim) lim then dy_close a (int, - k) (- k) else true
+          | None => true
+          end) (seq 0 n)
+      else true
+  | _ => true
+  end.
+Definition chk_enc (c : case_enc) : Z :=
+  let '(ty, wire, vs, r) := c in
+  let m := match encode ty wire vs with Some b => ROk b | None => RPan end in
+  code (ores_eqb bytes_eqb m r) (match r with ROk b => enc_fixed_ok wire vs b | _ => true end).
 
 Definition chk_fpenc (c : case_fpenc) : Z :=
   let '(w, fbits, b, back) := c in
